@@ -365,7 +365,20 @@ Definition deco_match (call dec : deco) : bool :=
 
 Section Judge.
   Variable bucket : Z -> list row.
+  (* the x87 "wait" forms (fstsw, fstcw, fstenv, fsave, fclex, finit): the database writes them with a leading 9B, which is the
+     instruction FWAIT followed by the no-wait form.  Their rows live in a bucket function of their own (`wbucket`, indexed by the
+     opcode that FOLLOWS the 9B), and the denotation of a byte string that starts with 9B is, besides the one-instruction reading
+     (fwait itself), the two-instruction reading: 9B, then a wait row denoting the REST (one byte longer). *)
+  Variable wbucket : Z -> list row.
   Variable row_of : Z -> option row.
+
+  Definition bump (c : Z * list operand * deco * nat) : Z * list operand * deco * nat :=
+    match c with (rid, ops, dd, len) => (rid, ops, dd, S len) end.
+  Definition denote2 (m : mode) (bs : bytes) : list (Z * list operand * deco * nat) :=
+    denote bucket m bs ++ match bs with
+                          | b :: rest => if b =? 155 then map bump (denote wbucket m rest) else []
+                          | [] => []
+                          end.
 
   (* verdict: 0 = the bytes denote exactly the call and nothing else is appended;
      1 = no structural decoding / no database row; 2 = decodes, but to a different instruction or different operands;
@@ -379,10 +392,10 @@ Section Judge.
                            | Some r => if Nat.eqb len (length bs) && negb (r_name r =? name) then [rid] else []
                            | None => []
                            end
-                       end) (denote bucket m bs).
+                       end) (denote2 m bs).
 
   Definition judge (m : mode) (name : Z) (ops : list operand) (dc : deco) (bs : bytes) : Z * list (Z * list operand * deco * nat) :=
-    let cands := denote bucket m bs in
+    let cands := denote2 m bs in
     let good := filter (fun c =>
       match c with
       | (rid, dops, dd, len) =>
